@@ -66,6 +66,11 @@ declare -A DEMO=(
  [C03c_shift_additive_precedence]="-p yash-arith --test c03c_shift_additive_precedence"
  [C04c_case_broken_alternative]="-p yash-semantics --test c04c_case_broken_pattern"
  [C09c_dot_script_fd_not_cloexec]="-p yash-builtin --test c09c_dot_script_fd_cloexec"
+ [C01d_trim_pattern_escapes_dropped]="-p yash-semantics --test c01d_trim_backslash"
+ [C02d_negation_lost_before_alias]="-p yash-builtin --test c02d_negated_alias"
+ [C03d_arith_assign_local_scope]="-p yash-semantics --test c03d_arith_assign_in_function"
+ [C04d_range_ending_with_bracket]="-p yash-fnmatch -p yash-semantics --test c04d_range_ending_with_bracket"
+ [C05d_glob_interrupted_by_any_signal]="-p yash-semantics --test c05d_glob_other_signal"
  [C16c_readonly_local_in_function]="-p yash-builtin --test c16c_readonly_in_function"
  [C20c_kill_attached_sig_prefix]="-p yash-builtin --test c20c_kill_attached_signal"
 )
